@@ -164,6 +164,12 @@ def run(ctx):
             feat = "mixed" if "mixed" in sc["features"] else ("branches" if "branches" in sc["features"] else "linear")
             if why == "completed-with-open-descendant":
                 orphan = orphan_cause(evs[: at + 1], vd.get("tid"))
+                # an acts.core.action act that has ended its own step (with an error that a catch above takes, or any way that lets the flow go on)
+                # is itself still running, completes afterwards and starts its successor: one root cause, whatever ancestor is seen closed first
+                nid_of = {o["tid"]: o["nid"] for _, o in obs_of(res, {"new"})}
+                acting = {a["id"] for st_ in all_steps(sc["models"][0].get("steps", [])) for a in st_.get("acts", []) if a.get("uses") == "acts.core.action"}
+                if nid_of.get(vd.get("tid")) in acting:
+                    orphan = "orphan:acting-act"
                 sig = f"C03|{why}|{orphan}"
             elif why == "open-task-after-nonerror-terminal-event":
                 # which action ended the process
@@ -188,6 +194,18 @@ def run(ctx):
     ctx.cov["clauses_proved"] = ["event table: complete xor error, exactly for terminal states (K1)", "a task without catch revive enters a terminal state at most once (all legal traces)",
                                  "Ref: completed iff everything beneath is done; finished => nothing open"]
     ctx.cov["clauses_not_proved"] = ["hierarchical completion of the engine under parallel composition (monitor on engine traces)"]
+
+
+def all_steps(steps):
+    for st in steps:
+        yield st
+        for b in st.get("branches", []):
+            yield from all_steps(b.get("steps", []))
+        for c in st.get("catches", []) + st.get("timeout", []):
+            yield from all_steps(c.get("steps", []))
+        for a in st.get("acts", []):
+            for c in a.get("catches", []) + a.get("timeout", []):
+                yield from all_steps(c.get("steps", []))
 
 
 def orphan_cause(evs, tid):
